@@ -1470,6 +1470,9 @@ def run_dupname(chk, F, rid="R-DUPNAME"):
                 forwards = answers and rets and all(any(c2.get("name") == f_["name"] for c2 in calls(r["e"])) for r in rets)
                 if forwards and callers_ok(g, True, depth + 1):
                     continue
+                # a worker one level further down (`add_instance` -> `append_instance`): judged by the callers of g
+                if not (g.get("cls") or "").endswith("Builder") and callers_ok(g, False, depth + 1):
+                    continue
                 return False
             return True
         ok = callers_ok(fn, returns_answer(fn)) and not (fn.get("cls") or "").endswith("Builder")
